@@ -1058,8 +1058,17 @@ var upgrader = websocket.Upgrader{
 	CheckOrigin:     func(r *http.Request) bool { return true },
 }
 
+// fpsFromNs converts a mean inter-arrival time in nanoseconds to frames per second.
+// A rate that is not finite (mean of zero, e.g. messages stamped in the same clock
+// tick) is reported as 0, like the rate of a connection that has no traffic yet:
+// encoding/json cannot represent Inf or NaN, so such a value would make every
+// status report fail.
 func fpsFromNs(ns float64) float64 {
-	return 1 / (ns * 1e-9)
+	fps := 1 / (ns * 1e-9)
+	if math.IsInf(fps, 0) || math.IsNaN(fps) {
+		return 0
+	}
+	return fps
 }
 
 func handleConnections(closed <-chan struct{}, parentwg *sync.WaitGroup, messagesFromMe chan message, deny chan string, config Config) {
